@@ -308,10 +308,9 @@ def runOp (op : String) (fields : List String) (impl : String) : Option Verdict 
     let oracle : List String :=
       if impl == "HANG" then ["c12-hang"]
       else if impl.startsWith "PANIC" then ["c12-panic"]
-      else if impl == fmtCli spec then []
       else
         match impl.splitOn " " with
-        | ["EXIT", code, "NERR", nerr, "OUT", out] =>
+        | ["EXIT", code, "NERR", _, "OUT", out, "ELINES", nerr] =>
           (if out != Bytes.toHexField spec.out then ["c16-stdout-differs-from-specification"] else []) ++
           (if (code != "0") != spec.exitNonZero then ["c16-exit-status-differs-from-specification"] else []) ++
           -- "a statement that fails is reported on standard error … nothing is ever dropped silently": FEWER report
@@ -320,7 +319,11 @@ def runOp (op : String) (fields : List String) (impl : String) : Option Verdict 
            | some n => if n < spec.nErrors then ["c16-failure-not-reported"] else []
            | none => ["unreadable-result"])
         | _ => ["unreadable-result"]
-    pure { model := fmtCli (cliRun modelCompileOpt lines.1 lines.2), oracle }
+    -- the correspondence compares status, the number of `pql:` report lines and standard output; the raw count
+    -- of standard-error lines (ELINES) is for the oracle only
+    let m := fmtCli (cliRun modelCompileOpt lines.1 lines.2)
+    let core := " ".intercalate ((impl.splitOn " ").take 6)
+    pure { model := if m == core then impl else m, oracle }
   | "HIST", [h, ps, _g, _k] => do
     let s ← Bytes.ofHex h
     let params ← parseParams ps
